@@ -4,8 +4,10 @@ Each `Driver/<X>.lean` provides `step<X> : String → List String → Option Str
 (`none` = not my op); add the import and the entry in `steppers`.
 -/
 import Driver.Headers
+import Driver.Peg
 import Driver.Registry
 import Driver.Thrift
+import Driver.Rpc
 import Driver.OutBuf
 import Driver.Processor
 import Driver.ContextHeap
@@ -15,11 +17,12 @@ import Driver.Adapter
 import Driver.Audit
 import Driver.Topic
 import Driver.NatsServer
+import Driver.Determinism
 
 open Driver
 
 def steppers : List (String → List String → Option String) :=
-  [stepHeaders, stepRegistry, stepThrift, stepOutBuf, stepProcessor, stepContext, stepContextHeap, stepMiddleware, stepAdapter, stepAudit, stepNatsServer, stepTopic]
+  [stepHeaders, stepRegistry, stepThrift, stepRpc, stepOutBuf, stepProcessor, stepContext, stepContextHeap, stepMiddleware, stepAdapter, stepAudit, stepPeg, stepNatsServer, stepTopic, stepDeterminism]
 
 def step (line : String) : String :=
   match (line.splitOn " ").filter (· ≠ "") with
